@@ -149,6 +149,8 @@ type Engine struct {
 	stepMax       int
 	noPOR         bool
 	randLog       []RandRec
+	lastRandN     *Term
+	lastRandR     *Term
 	trace         bool
 	maxSlice      int
 	feas          *Solver
@@ -178,7 +180,7 @@ func NewEngine(l *Loaded) *Engine {
 		reaches: map[string]*Term{}, unwindFail: TS.False, blocked: TS.False, nondets: map[string]*Term{},
 		funcsSeen: map[string]int{}, stubsSeen: map[string]int{}, loopsOf: map[*ssa.Function]*loopInfo{},
 		rpoOf: map[*ssa.Function]map[*ssa.BasicBlock]int{}, unwindWhere: map[string]bool{}, blockedAt: map[string]bool{},
-		stepMax: 4000000, maxSlice: 8, loopAllocMemo: map[string]bool{}, fnAllocMemo: map[*ssa.Function]bool{}}
+		lastRandN: BV(0, 64), lastRandR: BV(0, 64), stepMax: 4000000, maxSlice: 8, loopAllocMemo: map[string]bool{}, fnAllocMemo: map[*ssa.Function]bool{}}
 	return e
 }
 
@@ -576,7 +578,7 @@ func (e *Engine) allocCell(c *Config, t types.Type, kind string) *Cell {
 }
 
 func (e *Engine) allocArray(c *Config, elem types.Type, n int, kind string) *Cell {
-	name := e.dynName(c, kind)
+	name := e.dynName(c, kind) + fmt.Sprintf("#%d", n)
 	if o, ok := e.objs[name]; ok {
 		if len(o.Root.Kids) != n {
 			inconclusive("array object %s re-allocated with a different size (%d vs %d)", name, len(o.Root.Kids), n)
